@@ -189,6 +189,48 @@ class AddVariablesNoLeak(Contract):
             shutil.rmtree(d, ignore_errors=True)
 
 
+class AddDimensions(Contract):
+    """addDimensions onto a netCDF4 target: every dimension of the source is created exactly once, in order, with its length --
+    or with None (netCDF4's spelling of unlimited) when it is unlimited in the source or named in unlimited_dimensions;
+    lengths are arbitrary"""
+    prop = 'C07'
+    target = PG + '::Pseudo2NetCDF.addDimensions'
+    max_paths = 40
+
+    def __init__(self, forced):
+        self.forced = forced
+        self.name = 'addDimensions[%s]' % ('y forced unlimited' if forced else 'flags from the source')
+
+    def inputs(self, ctx, I):
+        self.n = dict(t=ctx.fresh('nt'), y=ctx.fresh('ny'), x=ctx.fresh('nx'))
+        dims = {'t': dim_obj(I, 't', self.n['t'], unlimited=True), 'y': dim_obj(I, 'y', self.n['y']), 'x': dim_obj(I, 'x', self.n['x'])}
+        pf = Obj(None, {'dimensions': dims}, tag='pfile')
+        nf = Obj(None, {}, tag='nfile')
+
+        def create(I2, a, k):
+            I2.ctx.ghost.setdefault('dims_created', []).append((a[0], a[1] if len(a) > 1 else k.get('size')))
+            return Obj(None, {}, tag='ndim')
+        nf.attrs['createDimension'] = native(create)
+        nf.attrs['sync'] = native(lambda I2, a, k: None)
+        s = self_obj(I, PG, 'Pseudo2NetCDF', dict(unlimited_dimensions=['y'] if self.forced else [], verbose=0))
+        return dict(self=s, pfile=pf, nfile=nf)
+
+    def requires(self, inp):
+        return And(*[ge(x, 0) for x in self.n.values()])
+
+    def ensures(self, inp, res, I):
+        got = I.ctx.ghost.get('dims_created', [])
+        want = [('t', None), ('y', None if self.forced else self.n['y']), ('x', self.n['x'])]
+        ok = len(got) == 3 and all(g[0] == w[0] for g, w in zip(got, want))
+        out = [('every dimension created once, in order', ok)]
+        if ok:
+            for (nm, size), (_, w) in zip(got, want):
+                out.append(('dimension %s: %s' % (nm, 'created unlimited (None)' if w is None else 'created with its length'),
+                            (size is None) if w is None else (size is not None and eq(size, w))))
+        return out
+
+
+CONTRACTS += [AddDimensions(False), AddDimensions(True)]
 CONTRACTS += [AddVariablesNoLeak(o, a, d) for o in (('masked', 'p1'), ('p1', 'masked', 'p2'), ('masked', 'p1', 'p2'))
               for a, d in (('fill_value', False), ('missing_value', True))]
 
@@ -350,7 +392,7 @@ META = dict(
     technique='fill-value consistency lemma (all presence patterns of the three fill attributes) and the no-leak property of addVariables proved by pyvc against an abstract netCDF4 target; libnetcdf round trip by bounded run-time contract',
     text='Proved: for a masked source variable with any non-empty subset of missing_value / fill_value / _FillValue and arbitrary values, Pseudo2NetCDF.addVariable creates the netCDF variable '
          'with the documented precedence and addVariableData fills masked cells with exactly that value; addVariables on a masked variable plus plain variables in every definition order '
-         '(define-then-populate and data-first): each variable is created once, the masked one with its fill value, every plain one WITHOUT a fill value, the shared creation keywords are left untouched. Bounded: save followed by open compared field by field for every flavour/compression.',
+         '(define-then-populate and data-first): each variable is created once, the masked one with its fill value, every plain one WITHOUT a fill value, the shared creation keywords are left untouched; addDimensions: every dimension created once, in order, with its (arbitrary) length, or None when unlimited / forced unlimited. Bounded: save followed by open compared field by field for every flavour/compression.',
     note='netCDF4 target modelled by its attribute contract (createVariable(fill_value=X) => _FillValue = X); libnetcdf/HDF5 persistence is external and bounded only.',
     assumptions=['libnetcdf/HDF5 persistence (external)'],
     explanation='mixed: proof obligations for the fill-value lemma + bounded exploration of the real save/open round trip')
